@@ -54,6 +54,10 @@ class Volume(CellModifierInput):
             ):
                 self._calc_by_mcnp = False
             for node in tree["data"]:
+                if not isinstance(node, syntax_node.ValueNode):
+                    raise MalformedInputError(
+                        input, f"Cell volumes by a number ≥ 0.0: {node} given"
+                    )
                 if node.value is not None:
                     try:
                         assert node.type == float
